@@ -94,7 +94,12 @@ fn resolve_iteratively(
         iter_count += 1;
 
         let is_first_iteration = iter_count == 1;
-        let is_last_iteration = iter_count == max_iterations;
+
+        // Unresolved values only become errors if the
+        // enclosing pass is not allowed to guess either
+        let is_last_iteration =
+            iter_count == max_iterations &&
+            !ctx.can_guess();
 
         let result = resolve_once(
             opts,
@@ -124,7 +129,7 @@ fn resolve_iteratively(
         position_at_start,
         labels,
         false,
-        true)?;
+        !ctx.can_guess())?;
 
     if !result.unstable
     {
